@@ -736,6 +736,19 @@ func (env *Env) evalCall(e *SX) Term {
 		ts, _ := u.sortOfTypeStr(args[1].Name)
 		_, _, is := c.boxFns(ts, xv.Sort)
 		return app(sortBool, is, xv)
+	case "sameptr":
+		// sameptr(a, b): Go's pointer identity (both nil, or the same reference); `==` on pointers in a contract compares
+		// the pointed-to values as well
+		a, b := ev(0), ev(1)
+		if a.Sort.Name != b.Sort.Name {
+			if r, ok := c.recPtrConv(b, a.Sort); ok {
+				b = r
+			}
+		}
+		if a.Sort.Kind != KPtr || a.Sort.Name != b.Sort.Name {
+			sfail("sameptr expects two pointers of the same type")
+		}
+		return tOr(tAnd(c.ptrIsNil(a), c.ptrIsNil(b)), tAnd(tNot(c.ptrIsNil(a)), tNot(c.ptrIsNil(b)), tEq(c.ptrRef(a), c.ptrRef(b))))
 	case "sortpos":
 		// sortpos(a, b, i): position in b of the element a[i], where one of a, b is the sorted permutation of the other
 		a, b, i := ev(0), ev(1), ev(2)
